@@ -458,9 +458,12 @@ func TestCheck(t *testing.T) {
 	defer r.Finish()
 	r.SetRule("artefacts = credentials/presentations produced by the node's own issuer and wallet (ldp_vc, jwt_vc, ldp_vp, jwt_vp; with status list, with expiry). " +
 		"case = (artefact, mutation operator, JSON pointer) submitted to the node's verifier API, or a grid case (validAt / revocation / trust / deactivation / signer) with a reference verdict. " +
+		"key-history grid = (DID method, artefact signed with key 1/key 2/both, validation time strictly inside each document version's interval | before creation | after deactivation | now, route API/Go) on a second node whose identities get a key added, a key removed and are deactivated; reference = key listed by the version in force at the validation time. " +
+		"status-entries grid = third-party credentials (both formats, as credential and inside a presentation) whose credentialStatus is an object or an array over {revocation list A/B set/clear, suspension set/clear, custom purpose, unknown type, unusable lists}: curated orders plus seeded random sequences; reference = revoked iff any revocation entry has its bit set. " +
 		"Non-trivial: the verifier returned a verdict for a mutant that differs from the original; distinct by (format, operator, pointer).")
-	r.Require(300, 150)
-	r.Assume("did:web issuers on one in-process node (did:web documents carry no history, so key add/remove *over time* is not exercised; deactivation is)")
+	r.Require(450, 250)
+	r.Assume("mutation operators and the trust/revocation/deactivation grid run on one in-process node with did:web issuers; DID document histories (key added, removed, deactivated over time) are exercised on a second in-process node with a did:nuts and a did:web identity it manages itself (documents of remote did:web parties carry no history)")
+	r.Assume("version timestamps of DID documents have one-second granularity: validation times are taken at least one second away from every recorded version timestamp")
 	r.Assume("JSON-LD equality up to: member order, set order, single-element arrays, @value wrapping, id/@id and type/@type aliases")
 
 	// did:web documents of harness-owned issuers are "hosted" by a scripted transport at the node's did:web resolver seam
@@ -472,6 +475,30 @@ func TestCheck(t *testing.T) {
 	w := iamflow.NewWorld(t, iamflow.Options{})
 	n := w.N
 	issuer, holder := w.Verifier, w.Client // verifier subject acts as issuer; client subject is the credential subject/holder
+
+	// key history (second node, own time line with real pauses between document versions) and multi-entry credentialStatus
+	// (third-party credentials on this node) run beside the mutation phase; both only read what the main flow changes later
+	phaseStart := time.Now()
+	phases := map[string]float64{} // wall-clock bookkeeping of the concurrent phases (evidence only, decides nothing)
+	var phasesMu sync.Mutex
+	mark := func(name string) {
+		phasesMu.Lock()
+		phases[name] = float64(time.Since(phaseStart).Milliseconds()) / 1000
+		phasesMu.Unlock()
+	}
+	kh := startKeyHistory(t, r)
+	mark("second_node_started")
+	seDone := make(chan struct{})
+	go func() {
+		defer close(seDone)
+		defer mark("status_entries_done")
+		defer func() {
+			if p := recover(); p != nil {
+				r.Inconclusive(fmt.Sprintf("status entries: harness panic: %v", p))
+			}
+		}()
+		statusEntries(r, n, hosted)
+	}()
 
 	issue := func(o iamflow.IssueOpts) json.RawMessage {
 		c, err := w.IssueTo(issuer, holder.DID, o)
@@ -648,6 +675,12 @@ func TestCheck(t *testing.T) {
 	}
 	close(ch)
 	wg.Wait()
+	mark("mutants_done")
+	select {
+	case <-seDone:
+	case <-time.After(10 * time.Minute):
+		r.Inconclusive("status entries: phase did not finish (watchdog)")
+	}
 
 	// (3) grid: validation time, revocation, trust, deactivation, signer != subject
 	grid := func(name string, want bool, got bool, msg string, witness any) {
@@ -906,16 +939,27 @@ func TestCheck(t *testing.T) {
 		grid("revocation/revoked-"+name+"-after-restart", false, ok, msg, nil)
 	}
 
+	mark("main_flow_done")
+	kh.wait()
+	mark("key_history_joined")
+	phases["key_history_own"] = kh.elapsed.Seconds()
+	r.Extra("phase_wall_s", phases)
+	if !kh.broken && (r.Get("key_history_reference_invalid") < 20 || r.Get("key_history_reference_valid") < 20) {
+		r.Fatalf("key history: only %d cases with reference 'invalid' and %d with reference 'valid' were evaluated", r.Get("key_history_reference_invalid"), r.Get("key_history_reference_valid"))
+	}
+	r.Extra("key_history_shapes", r.DistinctN("key_history_shapes"))
+	r.Extra("status_entry_shapes", r.DistinctN("status_entry_shapes"))
 	r.Extra("artefacts", len(arts))
 	r.Extra("distinct_operators_by_format", r.DistinctN("operators"))
 }
 
 // didHost serves did:web documents of harness-owned identities at the node's HTTP client seam.
 type didHost struct {
-	mu   sync.Mutex
-	docs map[string][]byte
-	orig http.RoundTripper
-	hits int
+	mu    sync.Mutex
+	docs  map[string][]byte
+	orig  http.RoundTripper
+	hits  int
+	byURL map[string]int
 }
 
 func (h *didHost) RoundTrip(req *http.Request) (*http.Response, error) {
@@ -923,6 +967,10 @@ func (h *didHost) RoundTrip(req *http.Request) (*http.Response, error) {
 	body, ok := h.docs[req.URL.String()]
 	if ok {
 		h.hits++
+		if h.byURL == nil {
+			h.byURL = map[string]int{}
+		}
+		h.byURL[req.URL.String()]++
 	}
 	h.mu.Unlock()
 	if ok {
@@ -936,6 +984,22 @@ func (h *didHost) RoundTrip(req *http.Request) (*http.Response, error) {
 }
 
 func (h *didHost) served() int { h.mu.Lock(); defer h.mu.Unlock(); return h.hits }
+
+// serve makes the host answer url with body (any document of a harness-owned party, e.g. a status list).
+func (h *didHost) serve(url string, body []byte) { h.mu.Lock(); h.docs[url] = body; h.mu.Unlock() }
+
+// servedPrefix returns how many requests for URLs starting with prefix were answered.
+func (h *didHost) servedPrefix(prefix string) int {
+	h.mu.Lock()
+	defer h.mu.Unlock()
+	n := 0
+	for u, c := range h.byURL {
+		if strings.HasPrefix(u, prefix) {
+			n += c
+		}
+	}
+	return n
+}
 
 // identity creates a key pair whose did:web document is served at docURL.
 func (h *didHost) identity(did, docURL string) *iamflow.Holder {
